@@ -369,8 +369,25 @@ def backends(run):
         if r.returncode != 0:
             run.violation('bundled SPI backend does not build against the test stubs: ' + r.stderr[-300:], ['# backend build'])
             return
-    r = C.sh([os.path.join(d, 'bk')], env=dict(os.environ, ASAN_OPTIONS='detect_leaks=0'))
+    req, ans = os.path.join(d, 'bk.req'), os.path.join(d, 'bk.ans')
+    r = C.sh([os.path.join(d, 'bk'), req, ans], env=dict(os.environ, ASAN_OPTIONS='detect_leaks=0'))
     lines = r.stdout.splitlines()
+    # correspondence: the same requests through the Lean model of the backends (Sx/Model/Backend.lean),
+    # the theorems C19_backend_* are about that model
+    if os.path.exists(req) and os.path.exists(ans):
+        reqs = open(req).read().splitlines()
+        impl = open(ans).read().splitlines()
+        rm = C.sh([C.SXMODEL], input='\n'.join(reqs) + '\n')
+        model = rm.stdout.splitlines()
+        run.cov['backend_requests_compared'] = min(len(impl), len(model))
+        run.cov['traces_validated'] = run.cov.get('traces_validated', 0) + 1
+        bad_i = next((i for i in range(max(len(impl), len(model), len(reqs)))
+                      if i >= len(impl) or i >= len(model) or impl[i] != model[i]), None)
+        if bad_i is not None:
+            q = reqs[bad_i] if bad_i < len(reqs) else '<none>'
+            run.backend_divs = [{'script': q, 'kind': 'backend-model', 'index': bad_i,
+                                 'impl': impl[bad_i] if bad_i < len(impl) else '<missing>',
+                                 'model': model[bad_i] if bad_i < len(model) else '<missing>'}]
     m = re.search(r'checks=(\d+) violations=(\d+)', r.stdout)
     if m:
         run.cov['monitor_checks'] += int(m.group(1))
@@ -382,11 +399,12 @@ def backends(run):
         run.violation(bad[0][1:], ['# backend test (harness/backends.c)'] + bad[:40], {'count': len(bad)})
 
 def c19(run):
+    run.backend_divs = []
     backends(run)
     def gen(g):
         g.hist(q(run, 300, 4000)); g.two_byte(); g.fsk_rx(q(run, 60, 600)); g.fsk_tx(q(run, 60, 600)); g.lora_rx(q(run, 40, 400)); g.lora_tx(q(run, 40, 400))
         g.exh_setters(q(run, [0x00], [0, 0xff]))
-    return C.execute(run, gen, monitor=M.mon_flags)
+    return C.execute(run, gen, monitor=M.mon_flags) + run.backend_divs
 
 # ---------------------------------------------------------------------------------------------
 # C20: register dump and the debug_registers tool
